@@ -115,8 +115,8 @@ class Token(str):
     def __getitem__(self, index: SupportsIndex | slice) -> str:
         s = str.__getitem__(self, index)
         if isinstance(index, slice):
-            return Token(
-                s, self.pos + (index.start or 0), self.source, self.filename)
+            start = index.indices(len(self))[0]
+            return Token(s, self.pos + start, self.source, self.filename)
         return s
 
     def __add__(self, other: str | None) -> Token:
